@@ -439,16 +439,19 @@ long vorbis_book_decodevv_add(codebook *book,float **a,long offset,int ch,
                               oggpack_buffer *b,int n){
 
   long i,j,entry;
-  int chptr=0;
+  /* the partition covers scalars [offset,offset+n) of the interleaved
+     vector; neither bound need be a multiple of the channel count */
+  int chptr=offset%ch;
+  long left=n;
   if(book->used_entries>0){
-    int m=(offset+n)/ch;
-    for(i=offset/ch;i<m;){
+    for(i=offset/ch;left>0;){
       entry = decode_packed_entry_number(book,b);
       if(entry==-1)return(-1);
       {
         const float *t = book->valuelist+entry*book->dim;
-        for (j=0;i<m && j<book->dim;j++){
+        for (j=0;left>0 && j<book->dim;j++){
           a[chptr++][i]+=t[j];
+          left--;
           if(chptr==ch){
             chptr=0;
             i++;
